@@ -416,9 +416,12 @@ class LAGenericMacro(Macro):
                 "after multiplying coeffs, both sides should be number")
         lhs_const, rhs_const = eval_const(lhs_sum_norm), eval_const(rhs_sum_norm)
         cond = False
+        # A strict disequality makes the sum strict only if its coefficient is not zero.
+        has_strict = any(dis_eq.is_greater() and eval_const(coeff) != 0
+                         for coeff, dis_eq in zip(coeffs, dis_eq_step3))
         if all(dis_eq.is_equals() for dis_eq in dis_eq_step3):
             cond = (rhs_const != lhs_const)
-        elif all(dis_eq.is_equals() or dis_eq.is_greater_eq() for dis_eq in dis_eq_step3):
+        elif not has_strict:
             cond = (rhs_const > lhs_const) # lhs <= rhs -> check 
         else:
             cond = (rhs_const >= lhs_const)
